@@ -40,7 +40,7 @@ int __wrap_epoll_ctl(int ep, int op, int fd, struct epoll_event *e) {
 	return __real_epoll_ctl(ep, op, fd, e);
 }
 
-static tp_p g_tp;
+static tp_p g_tp; static int g_first_fd;
 static void dummy_cb(tp_event_p ev, tp_udata_p u) { (void)ev; (void)u; }
 static void on_start(tpt_p tpt) { if (tpt_get_current() == tpt) tm_tid = (uint32_t)tpt_get_num(tpt); }
 
@@ -164,7 +164,10 @@ static void do_op(hstep_t *s) {
 		memset(&d->u, 0, sizeof(d->u));
 		d->kind = s->kind; d->flags = s->flags; d->u.cb_func = ev_cb; d->fired_since_enable = 0;
 		if (d->kind == K_READ || d->kind == K_WRITE) { open_ident(d, d->kind, (int)(s->arg & 1)); d->u.ident = (uintptr_t)d->fdr; rc = tpt_ev_add_args(g_reg, (uint16_t)d->kind, (uint16_t)d->flags, 0, 0, &d->u); }
-		else if (d->kind == K_TIMER) { d->timer_ms = 1 + (s->arg % 4); d->u.ident = (uintptr_t)d; rc = tpt_ev_add_args(g_reg, TP_EV_TIMER, (uint16_t)d->flags, TP_FF_T_MSEC, d->timer_ms, &d->u); }
+		else if (d->kind == K_TIMER) { d->timer_ms = 1 + (s->arg % 4);
+			/* a timer's identifier is only a label: with bit 3 set the labels are small integers from the number of the pool's first
+			 * descriptor (its virtual thread's epoll) upwards, so one of them collides with that number */
+			d->u.ident = (g_external & 8) ? (uintptr_t)(g_first_fd + (int)(s->id % MAXID)) : (uintptr_t)d; rc = tpt_ev_add_args(g_reg, TP_EV_TIMER, (uint16_t)d->flags, TP_FF_T_MSEC, d->timer_ms, &d->u); }
 		else {
 			if (g_kid_next >= g_kids) break;
 			d->child = g_kid[g_kid_next]; d->u.ident = (uintptr_t)d->child; d->flags = 0;
@@ -263,6 +266,7 @@ int main(void) {
 		prefork_kids();
 	}
 	tp_settings_def(&s); s.threads_max = (mode == 3 && (g_external & 2)) ? 1 : 2; s.flags = 0; s.tpt_on_start = on_start;
+	{ int probe = dup(1); if (probe >= 0) close(probe); g_first_fd = probe; } /* the number the pool's first descriptor will get */
 	rc = tp_create(&s, &g_tp); if (rc) { fprintf(stderr, "tp_create rc=%d\n", rc); return 3; }
 	vout_u32(&o, 0xC06C06); vout_u8(&o, (uint8_t)mode);
 
@@ -292,6 +296,15 @@ int main(void) {
 			if (evk == TP_EV_TIMER && isel == 0) u.ident = (uintptr_t)&u;
 			if (evk == TP_EV_PROC && isel == 0) u.ident = (uintptr_t)getpid();
 			TM_LOG(EV_STEP, evk, i, ((uint64_t)fl << 32) | ff, (int64_t)data);
+			if (cbn == 2) { /* two steps: a plain valid registration first, then ENABLE with the flags / filter flags under test */
+				u.cb_func = dummy_cb;
+				rc = tpt_ev_add_args(tpt, evk, 0, evk == TP_EV_TIMER ? TP_FF_T_MSEC : 0, evk == TP_EV_TIMER ? 100000 : 0, &u);
+				if (rc) { TM_LOG(EV_RC, 0, i, 1, rc); continue; }
+				rc = tpt_ev_enable_args(1, evk, fl, ff, data, &u);
+				TM_LOG(EV_RC, 0, i, 2, rc);
+				tpt_ev_del_args1(evk, &u);
+				continue;
+			}
 			rc = tpt_ev_add_args(tptn ? NULL : tpt, evk, fl, ff, data, &u);
 			TM_LOG(EV_RC, 0, i, 0, rc);
 			if (rc == 0) {
